@@ -445,6 +445,9 @@ def require(ctx, tier):
             raise HarnessError(f"C15 generator never produced class {lab!r}")
 
 
+# thorough tier: libFuzzer (atheris) also drives this strategy with coverage feedback from d42
+COVERAGE_GUIDED = {"runs": 60000, "seconds": 120}
+
 MANIFEST = {
     "text": "Generated-input search over schema triples (original, independent rebuild, single-step "
             "variant) and probe values: equivalence-relation laws, agreement of == with an "
